@@ -21,6 +21,8 @@ SUB = "sd.EventgroupSubscription"
 
 
 def check(run, prog, tier):
+    from . import model as _model
+    _model.audit(run, prog, 'C06')
     # the record of live subscriptions is the store itself, not a cached view of it
     cache_coherence(run, prog, "N5", ['sd.ServiceInstance', 'sd.TimedStore'])
     run.explanation = (
